@@ -29,7 +29,11 @@ RULE = ("1..4 TimeDate/TimeSpan blocks spread over the local and the UTC cron of
         "arbitrary instants and just before boundaries; latency spikes: 1..3 timer wake-ups 2..20 ms late at "
         "chosen alarms (injected by the harness, reported to the model as `late` records that excuse that "
         "window only) in 1..3 day runs of 2..5 blocks with 3..6 time ranges each, so that tens of alarms "
-        "follow the spike. Every recalc of every block is logged with the "
+        "follow the spike; output-event hooks: blocks whose on_output event (Edge filter / EventCond selecting "
+        "the rising or falling edge, or every change) sends 'reconfig' with the next configuration of a list "
+        "to themselves or to another block, so that reconfigurations run synchronously inside cron's alarm "
+        "processing, with the current alarm time, other ones or none in common (end points from a small pool "
+        "of times of day shared by all blocks). Every recalc of every block is logged with the "
         "reading it was given (in-process wrapper) and the Lean acceptance predicate checks S1 (output = "
         "calendar predicate of the reading, Lean civil calendar), S2 (every boundary served within 5 ms), "
         "S3 (recalculated within 1 h + 5 ms after a jump), the legality of every group of blocks cron "
@@ -74,23 +78,37 @@ _REC = None     # list of events while a scenario runs
 def _wrap(cls):
     orig = cls.recalc
 
+    def set_output(self, value):
+        # remember every value handed to set_output: a recalc may be followed, before it returns, by a nested
+        # reconfiguration of the same block (triggered by its own output event)
+        self.__dict__.setdefault('_c07_sets', []).append(value)
+        return super(cls, self).set_output(value)
+
     def recalc(self, now):
-        orig(self, now)
         if _REC is None or not hasattr(self, '_c07_id'):
-            return
+            return orig(self, now)
         caller = sys._getframe(1).f_code.co_name
         alarms = {}
         for tod, blks in self._cron._alarms.items():
             ids = sorted(b._c07_id for b in blks if hasattr(b, '_c07_id'))
             alarms[tod_us(tod)] = ids
         if caller == '_event_reconfig':
-            _REC.append({'k': 'config', 'blk': self._c07_id, 'state': self.get_state(), 'read': to_us(now),
-                         'out': self.output,
-                         'alarms': sorted(t for t, ids in alarms.items() if self._c07_id in ids)})
+            ev = {'k': 'config', 'blk': self._c07_id, 'state': self.get_state(), 'read': to_us(now), 'out': None,
+                  'alarms': sorted(t for t, ids in alarms.items() if self._c07_id in ids)}
         else:
-            _REC.append({'k': 'recalc', 'blk': self._c07_id, 'read': to_us(now), 'out': self.output,
-                         'now_obj': now, 'cron': self._cron.name, 'alarms': alarms})
+            ev = {'k': 'recalc', 'blk': self._c07_id, 'read': to_us(now), 'out': None,
+                  'now_obj': now, 'cron': self._cron.name, 'alarms': alarms}
+        # the record is placed BEFORE the call: everything the output change triggers synchronously (an
+        # on_output event reconfiguring this or another block) follows it in the trace
+        _REC.append(ev)
+        sets = self.__dict__.setdefault('_c07_sets', [])
+        n0 = len(sets)
+        try:
+            return orig(self, now)
+        finally:
+            ev['out'] = sets[n0] if len(sets) > n0 else self.output
     cls.recalc = recalc
+    cls.set_output = set_output
 
 
 def tod_us(t):
@@ -391,6 +409,74 @@ def gen_spike(rng, tier):
             'blocks': blocks, 'ops': [], 'spikes': spikes}
 
 
+HOOK_STYLES = ['edge-rise', 'edge-fall', 'cond-rise', 'cond-fall', 'any']
+
+
+def gen_hook(rng, tier):
+    """blocks whose on_output events (Edge filter or EventCond selecting the rising / falling edge, or every
+    change) send 'reconfig' with the next configuration of a list to themselves or to another block: the
+    reconfiguration runs synchronously inside cron's alarm processing, at a boundary of the block that
+    changed. All end points come from a small pool of times of day, so that blocks share alarm times and a new
+    configuration has the current alarm time, other ones or none in common with the old one.
+    No event loops: a block with a hook to itself (Edge filter, one edge only -- an EventCond enters event() also
+    for the edge it ignores, which the recursion guard refuses) is nobody's target, other targets have no hook."""
+    year, month, day = rng.choice(START_DAYS) if rng.random() < 0.4 else (
+        rng.randint(1971, 2099), rng.randint(1, 12), rng.randint(1, 28))
+    lat = rng.choice([2, 2, 50, 200])
+    ilat = rng.choice([0, 0, 100])
+    t0 = to_us(dt.datetime(year, month, day)) + rng.randrange(0, 24 * 60) * 60 * 10 ** 6 + rng.choice([0, 17, 30 * 10 ** 6])
+    ndays = 1 if tier == 'quick' or rng.random() < 0.6 else 2
+    t1 = t0 + ndays * DAY_US + rng.randrange(0, 3600) * 10 ** 6
+    pool = sorted(rng.sample(range(0, 24 * 12), rng.randint(4, 8)))
+    pool = [x * 5 * 60 * 10 ** 6 + rng.choice([0, 0, 0, 500, 10 ** 6]) for x in pool]
+
+    def td_cfg():
+        r = rng.random()
+        if r < 0.08:
+            return {'times': None, 'dates': None, 'weekdays': rnd_weekdays(rng)}      # no time alarm at all
+        if r < 0.12:
+            return {'times': [], 'dates': None, 'weekdays': None}
+        times = []
+        for _ in range(rng.choice([1, 1, 2, 3])):
+            lo, hi = rng.sample(pool, 2)
+            times.append([hms(lo), hms(hi)])
+        return {'times': times, 'dates': None, 'weekdays': rnd_weekdays(rng) if rng.random() < 0.15 else None}
+
+    def ts_cfg():
+        if rng.random() < 0.1:
+            return {'span': []}
+        span = []
+        for _ in range(rng.choice([1, 1, 2])):
+            d0 = (t0 // DAY_US + rng.randint(0, ndays)) * DAY_US
+            lo = d0 + rng.choice(pool)
+            hi = lo + rng.choice([rng.choice(pool) + DAY_US - lo % DAY_US, rng.randrange(1, 600) * 60 * 10 ** 6])
+            span.append([stamp_list(lo), stamp_list(hi)])
+        return {'span': span}
+
+    nblocks = rng.choice([1, 2, 2, 3, 3, 4])
+    utc_all = rng.random() < 0.5
+    blocks = []
+    for i in range(nblocks):
+        kind = 'td' if rng.random() < 0.75 else 'ts'
+        blocks.append({'kind': kind, 'utc': utc_all if rng.random() < 0.85 else not utc_all,
+                       'cfg': td_cfg() if kind == 'td' else ts_cfg()})
+    # who reconfigures whom
+    order = list(range(nblocks))
+    rng.shuffle(order)
+    nsrc = rng.randint(1, max(1, nblocks - 1)) if nblocks > 1 else 1
+    sources, plain = order[:nsrc], order[nsrc:]
+    for i in sources:
+        if plain and rng.random() < 0.55:
+            target, style = rng.choice(plain), rng.choice(HOOK_STYLES)
+        else:
+            target, style = i, rng.choice(HOOK_STYLES[:2])
+        kind = blocks[target]['kind']
+        cfgs = [td_cfg() if kind == 'td' else ts_cfg() for _ in range(rng.randint(1, 5))]
+        blocks[i]['hook'] = {'style': style, 'target': target, 'cfgs': cfgs}
+    return {'kind': 'circuit', 'family': 'hook', 'start': t0, 'end': t1, 'lat': lat, 'ilat': ilat,
+            'blocks': blocks, 'ops': []}
+
+
 def targeted(tier):
     """seed-independent schedules aimed at the windows between a block's own clock read and the
     scheduler's next one (DESIGN.md 5, rows 3 and 4)"""
@@ -434,6 +520,26 @@ def targeted(tier):
                     'blocks': [{'kind': 'td', 'utc': True,
                                 'cfg': {'times': [[[23, 50], [0, 30]]], 'dates': None, 'weekdays': [1]}}],
                     'ops': [{'op': 'jump', 'w': eve + 3 * HOUR_US + 2700 * 10 ** 6, 'delta': delta}]})
+    # a one-shot window that re-schedules itself at its falling edge (inside cron's alarm processing), a second
+    # block at the same alarm time; and a block that moves ANOTHER block of the same alarm away
+    sun = to_us(dt.datetime(2024, 3, 10, 10, 0))
+    w = lambda a, z: {'times': [[a, z]], 'dates': None, 'weekdays': None}       # noqa: E731
+    for style, tgt in (('edge-fall', 0), ('cond-fall', 1)):
+        out.append({'kind': 'circuit', 'family': 'targeted-hook', 'start': sun, 'end': sun + 5 * HOUR_US,
+                    'lat': 2, 'ilat': 0,
+                    'blocks': [{'kind': 'td', 'utc': False, 'cfg': w([10, 30], [11, 0]),
+                                'hook': {'style': style, 'target': tgt,
+                                         'cfgs': [w([11, 30], [12, 0]), w([12, 0], [12, 30]), w([13, 0], [13, 30])]}},
+                               {'kind': 'td', 'utc': False, 'cfg': w([10, 45], [11, 0])}],
+                    'ops': []})
+    out.append({'kind': 'circuit', 'family': 'targeted-hook', 'start': sun, 'end': sun + 5 * HOUR_US,
+                'lat': 50, 'ilat': 0,
+                'blocks': [{'kind': 'td', 'utc': True, 'cfg': w([10, 30], [11, 0]),
+                            'hook': {'style': 'any', 'target': 1,
+                                     'cfgs': [w([11, 30], [12, 0]), w([11, 0], [12, 30]), w([13, 0], [13, 30])]}},
+                           {'kind': 'td', 'utc': True, 'cfg': w([10, 30], [11, 0])},
+                           {'kind': 'td', 'utc': True, 'cfg': w([9, 0], [11, 0])}],
+                'ops': []})
     # one single wake-up (the one before 11:00) is 6 / 10 / 20 ms late, then a day and a half of alarms
     wed = to_us(dt.datetime(2026, 3, 4, 9, 50))
     for sp in (6000, 10000, 20000):
@@ -481,7 +587,7 @@ def scenarios(rng, tier):
     yield from targeted(tier)
     n = 10000 if tier == 'quick' else 200000
     for i in range(n):
-        yield gen_spike(rng, tier) if i % 8 == 7 else gen_circuit(rng, tier)
+        yield gen_spike(rng, tier) if i % 8 == 7 else gen_hook(rng, tier) if i % 8 == 3 else gen_circuit(rng, tier)
 
 
 def shrink(scn):
@@ -493,8 +599,20 @@ def shrink(scn):
     spikes = scn.get('spikes') or []
     for i in reversed(range(len(spikes))):
         yield {**scn, 'spikes': spikes[:i] + spikes[i + 1:]}
+    hooked = [i for i, blk in enumerate(scn['blocks']) if blk.get('hook')]
+    for i in hooked:
+        hook = scn['blocks'][i]['hook']
+        blocks = list(scn['blocks'])
+        blocks[i] = {k: v for k, v in blocks[i].items() if k != 'hook'}
+        yield {**scn, 'blocks': blocks}
+        if len(hook['cfgs']) > 1:
+            blocks = list(scn['blocks'])
+            blocks[i] = {**blocks[i], 'hook': {**hook, 'cfgs': hook['cfgs'][:-1]}}
+            yield {**scn, 'blocks': blocks}
     # drop a block that no op refers to (re-indexing the others)
     used = {o['blk'] for o in ops if o['op'] == 'reconfig'}
+    if hooked:
+        used = set(range(len(scn['blocks'])))
     for i in reversed(range(len(scn['blocks']))):
         if i not in used and len(scn['blocks']) > 1:
             new_ops = [dict(o, blk=o['blk'] - 1) if o['op'] == 'reconfig' and o['blk'] > i else o for o in ops]
@@ -615,13 +733,47 @@ def run_impl(scn):
     events = _REC = []
     info = {'error': None, 'done': False}
 
+    cur = [(s['kind'], s['cfg']) for s in scn['blocks']]     # configuration in force (for the probe planner)
+
+    def hook_event(i, hook):
+        """on_output event of block i: send 'reconfig' with the next configuration of the hook's list to the
+        target block -- synchronously, i.e. inside cron's alarm processing when cron's recalc changed the output"""
+        queue = list(enumerate(hook['cfgs']))
+        target = hook['target']
+        style = hook['style']
+
+        def pick(data):
+            if not queue or _REC is None or data.get('previous') is edzed.UNDEF:
+                return False
+            # the filters run before an EventCond is resolved: consume a configuration only when an event
+            # will really be sent; keep 'value' in the data, the EventCond selects by it
+            if (style == 'cond-rise' and not data.get('value')) or (style == 'cond-fall' and data.get('value')):
+                return data
+            n, cfg = queue.pop(0)
+            events.append({'k': 'hook', 'src': i, 'blk': target, 'n': n})
+            cur[target] = (cur[target][0], cfg)
+            return {**data, **cfg}
+        pick.__name__ = f'pick{i}'
+        if style == 'edge-rise':
+            return edzed.Event(f'b{target}', 'reconfig', efilter=(edzed.Edge(rise=True, u_rise=False), pick))
+        if style == 'edge-fall':
+            return edzed.Event(f'b{target}', 'reconfig', efilter=(edzed.Edge(fall=True), pick))
+        if style == 'cond-rise':
+            return edzed.Event(f'b{target}', edzed.EventCond('reconfig', None), efilter=pick)
+        if style == 'cond-fall':
+            return edzed.Event(f'b{target}', edzed.EventCond(None, 'reconfig'), efilter=pick)
+        return edzed.Event(f'b{target}', 'reconfig', efilter=pick)       # 'any': every change
+
     def build(circuit):
         blks = []
         for i, spec in enumerate(scn['blocks']):
+            kw = {}
+            if spec.get('hook'):
+                kw['on_output'] = hook_event(i, spec['hook'])
             if spec['kind'] == 'td':
-                blk = edzed.TimeDate(f'b{i}', utc=spec['utc'], **spec['cfg'])
+                blk = edzed.TimeDate(f'b{i}', utc=spec['utc'], **spec['cfg'], **kw)
             else:
-                blk = edzed.TimeSpan(f'b{i}', utc=spec['utc'], **spec['cfg'])
+                blk = edzed.TimeSpan(f'b{i}', utc=spec['utc'], **spec['cfg'], **kw)
             blk._c07_id = i
             blks.append(blk)
         return blks
@@ -629,7 +781,6 @@ def run_impl(scn):
     async def drive(sim, blks):
         loop = sim.loop
         loop.iter_latency_us = scn['ilat']
-        cur = [(s['kind'], s['cfg']) for s in scn['blocks']]
         spikes = sorted(scn.get('spikes') or [], key=lambda x: x['w'])
         plain_run_once = loop._run_once
 
@@ -742,6 +893,7 @@ def run_impl(scn):
     trace = ['ok']
     kinds = [s['kind'] for s in scn['blocks']]
     group_obj = group_cron = None
+    nested = False
     after_jump = {}
     changes = 0
     prev_out = {}
@@ -752,12 +904,18 @@ def run_impl(scn):
             trace.append('ok')
             lines.append(f"cron alarms {ev['blk']}")
             trace.append(','.join(str(t) for t in ev['alarms']) or 'e')
-            group_obj = None
+            if not nested:          # a reconfiguration made inside cron's alarm processing does not end the group
+                group_obj = None
+            nested = False
+        elif k == 'hook':
+            nested = True
         elif k == 'recalc':
             if ev['now_obj'] is not group_obj or ev['cron'] != group_cron:
                 group_obj, group_cron = ev['now_obj'], ev['cron']
                 members = []
                 for ev2 in events[n:]:
+                    if ev2['k'] in ('hook', 'config'):
+                        continue            # nested reconfigurations triggered by output events
                     if ev2['k'] != 'recalc' or ev2['now_obj'] is not group_obj or ev2['cron'] != group_cron:
                         break
                     members.append(ev2['blk'])
@@ -796,7 +954,9 @@ def run_impl(scn):
     nrec = sum(1 for o in scn['ops'] if o['op'] == 'reconfig')
     d0 = from_us(scn['start'])
     tags = [f"family={scn['family']}", f"lat={scn['lat']}", f"ilat={scn['ilat']}", f"blocks={len(scn['blocks'])}",
-            f"jumps={njump}", f"reconfigs={min(nrec, 4)}", f"spikes={len(scn.get('spikes') or [])}", f"days={(scn['end'] - scn['start']) // DAY_US}",
+            f"jumps={njump}", f"reconfigs={min(nrec, 4)}", f"spikes={len(scn.get('spikes') or [])}",
+            f"hooks={sum(1 for s in scn['blocks'] if s.get('hook'))}",
+            f"nested_reconfigs={min(sum(1 for e in events if e['k'] == 'hook'), 5)}", f"days={(scn['end'] - scn['start']) // DAY_US}",
             'crons=' + '+'.join(sorted({'utc' if s['utc'] else 'local' for s in scn['blocks']}))]
     tags += sorted({f"kind={s['kind']}" for s in scn['blocks']})
     if (d0.month, d0.day) in ((12, 31), (12, 30)):
@@ -881,6 +1041,9 @@ def oracle(scn, res):
         if k == 'op':
             op = scn['ops'][ev['idx']]
             cur[ev['blk']] = (cur[ev['blk']][0], op['cfg'])
+        elif k == 'hook':
+            cfgs = scn['blocks'][ev['src']]['hook']['cfgs']
+            cur[ev['blk']] = (cur[ev['blk']][0], cfgs[ev['n']])
         elif k == 'operr':
             if res.get('error') is None:    # otherwise a consequence of the terminated simulation, reported below
                 out.append({'clause': 'reconfig_accepted', 'what': f"reconfig raised {ev['what']}"})
